@@ -7,17 +7,13 @@ its parent, grandparent points at it) transfers to the rule at every position of
 import Mathy.Model.Rules
 import Mathy.Model.Tree
 import Mathy.Props.C15
+import Mathy.Props.C06Order
 
 namespace Mathy
 open BT
 
-/-- the link structure of an expression tree: object identities, children (a unary node keeps
-its operand on the right) -/
-def Ex.toBT : Ex → BT
-  | .const t _ => .node t .nil .nil
-  | .var t _ => .node t .nil .nil
-  | .un t _ c => .node t .nil c.toBT
-  | .bin t _ l r => .node t l.toBT r.toBT
+/- `Ex.toBT` (Props/C06Order.lean) is the link structure of an expression tree: object identities,
+children (a unary node keeps its operand on the right) -/
 
 def Frame.dir : Frame → Dir
   | .binL .. => .L
